@@ -17,7 +17,7 @@ from simkit import rngseam
 from simkit.world import sub_rng, HarnessError
 
 ID = "C16"
-RULE = ("one world per seed: driver (hem / vg / cgmy y=0.2 / cgmy y=1.2), coefficient (Constant c | DiagX | LiborSDEFunction with 2-3 rates and fixing dates inside the horizon), x0, grid step, "
+RULE = ("one world per seed: driver (hem / vg / cgmy y=0.2 / cgmy y=1.2), coefficient (Constant c | DiagX | LiborSDEFunction with 2-3 rates and fixing dates inside the horizon | the Levy Libor model with its state-dependent SDE drift), x0, grid step, "
         "maturity, engine (standard with MarkovChainSDE | multilevel fixed-level with CouplingSDE, max level 1-3), 3-12 "
         "paths per level, variates from the seeded per-context generators. non-trivial = SDE path with >=3 time points; "
         "distinct = hash(driver, coefficient, engine, levels, step-count pattern)")
@@ -26,12 +26,15 @@ REAL = ["rpylib.process.markovchain.markovchainsde.MarkovChainSDE", "rpylib.proc
         "rpylib.model.levydrivensde.levydrivensde", "standard and multilevel engines, path managers"]
 STUB = ["clock/pid/entropy/RNG seams (record mode)", "gmpy2.qdiv, tqdm"]
 ASSUMPTIONS = ["the driver paths are taken as given (their structure is C15, their coupling C03)",
+               "the SDE drift function of the Levy Libor model is taken as given (the model's own sde_drift, evaluated by the "
+               "reference at each component's own state and left end point); its formula is not decided here",
                "discount-factor clause of C16 (df(0)=1, positive, continuous, non-increasing) is a pure function of t: not decided",
                "copula (n-d) drivers are not covered"]
 TIERS = {
     "quick": {"worlds": 300, "wall": 500, "shrink_budget": 40,
               "required_probes": ["c16.single_path_checked", "c16.coupled_path_checked", "c16.diag_coefficient",
-                                  "c16.maxstep_active", "c16.level_ge_2", "c16.fixing_inside_the_horizon"]},
+                                  "c16.maxstep_active", "c16.level_ge_2", "c16.fixing_inside_the_horizon",
+                                  "c16.state_dependent_sde_drift"]},
     "thorough": {"worlds": 8000, "wall": 3300, "shrink_budget": 100,
                  "required_probes": ["c16.single_path_checked", "c16.coupled_path_checked", "c16.diag_coefficient",
                                      "c16.maxstep_active", "c16.level_ge_2"]},
@@ -92,6 +95,7 @@ def _install():
         wd = rngseam.ACTIVE
         if wd is not None and getattr(wd, "c16", None) is not None:
             wd.c16["drifts"].setdefault(0, float(np.ravel(self.markov_chain.process_drift())[0]))
+            wd.c16.setdefault("sde_drift", self.sde_drift)
         return r
 
     msde.MarkovChainSDE.initialisation = init
@@ -100,7 +104,7 @@ def _install():
 
 def generate(seed, tier="quick"):
     r = sub_rng(seed, "c16.scenario")
-    return {"world_seed": seed, "driver": r.choice(list(DRIVERS)), "coef": r.choice(["const", "diag", "diag", "libor", "libor"]),
+    return {"world_seed": seed, "driver": r.choice(list(DRIVERS)), "coef": r.choice(["const", "diag", "diag", "libor", "libor", "libormodel", "libormodel"]),
             "m": r.choice([2, 3]), "tenor_fracs": sorted(r.sample([0.15, 0.3, 0.45, 0.6, 0.75, 0.9, 1.2, 1.5], 4)),
             "c": r.choice([1.0, 0.5, -2.0]), "x0": r.choice([1.0, 0.03, 100.0]), "h": r.choice([0.1, 0.05, 0.2]),
             "maturity": r.choice([0.25, 1.0]), "engine": r.choice(["standard", "mlmc", "mlmc"]),
@@ -133,12 +137,14 @@ SIGMA = np.array([0.5, 0.8, 1.0])
 X0_LIBOR = np.array([0.02, 0.025, 0.03])
 
 
-def _euler(x0, coef, c, mu, times, dW, dL, tenors=None):
+def _euler(x0, coef, c, mu, times, dW, dL, tenors=None, sde_drift=None):
     """independent Euler recursion: X_{i+1} = X_i + a(t_i, X_i) * (mu dt_i + dW_i + dL_i), coefficient taken at the LEFT
     end point; scalar state for const / diag, vector state (one row per time) for the Libor coefficient"""
-    x = np.array(x0, dtype=float) if coef == "libor" else x0
-    xs = [np.array(x, copy=True) if coef == "libor" else x]
+    vec = coef in ("libor", "libormodel")
+    x = np.array(x0, dtype=float) if vec else x0
+    xs = [np.array(x, copy=True) if vec else x]
     for i in range(len(times) - 1):
+        dt = times[i + 1] - times[i]
         if coef == "const":
             a = c
         elif coef == "diag":
@@ -147,9 +153,13 @@ def _euler(x0, coef, c, mu, times, dW, dL, tenors=None):
             sig = SIGMA[:len(x)].copy()
             sig[np.asarray(tenors[:-1]) <= times[i]] = 0.0  # a rate stops moving once it has fixed
             a = sig * x
-        x = x + a * mu * (times[i + 1] - times[i]) + a * (dW[i] + dL[i])
-        xs.append(np.array(x, copy=True) if coef == "libor" else x)
-    return np.array(xs).T if coef == "libor" else np.array(xs)
+        dr = 0.0
+        if sde_drift is not None:
+            # the model's own SDE drift, evaluated at THIS component's own state at the left end point
+            dr = np.asarray(sde_drift(times[i], np.array(x, dtype=float).reshape(-1, 1)), dtype=float).reshape(-1)
+        x = x + (dr + a * mu) * dt + a * (dW[i] + dL[i])
+        xs.append(np.array(x, copy=True) if vec else x)
+    return np.array(xs).T if vec else np.array(xs)
 
 
 def execute(wd, sc):
@@ -172,7 +182,8 @@ def execute(wd, sc):
     wd.c16 = {"driver": [], "drifts": {}}
     mt, kw = DRIVERS[sc["driver"]]
     x0, coef, c, T = sc["x0"], sc["coef"], sc["c"], sc["maturity"]
-    cls = "a=" + {"const": "constant", "diag": "x", "libor": "sigma(t)*x"}[coef]
+    cls = "a=" + {"const": "constant", "diag": "x", "libor": "sigma(t)*x", "libormodel": "sigma(t)*x+libor-drift"}[coef]
+    vec = coef in ("libor", "libormodel")
 
     def add(sig, detail):
         if not any(v["sig"] == sig for v in V):
@@ -181,11 +192,13 @@ def execute(wd, sc):
     try:
         driver = create_levy_model(ModelType[mt])(**kw)
         tenors = None
-        if coef == "libor":
+        if coef in ("libor", "libormodel"):
             from rpylib.model.levydrivensde.levydrivensde import LiborSDEFunction
 
             m = sc["m"]
             tenors = np.array(sc["tenor_fracs"][:m + 1]) * T
+            if coef == "libormodel":
+                tenors[-1] = max(tenors[-1], 1.25 * T)  # the model discounts up to its last tenor only
             x0 = X0_LIBOR[:m].copy()
             a = LiborSDEFunction(sigma=SIGMA[:m].reshape(m, 1).copy(), tenors=tenors)
             wd.probes["c16.time_dependent_coefficient"] += 1
@@ -193,7 +206,15 @@ def execute(wd, sc):
                 wd.probes["c16.fixing_inside_the_horizon"] += 1
         else:
             a = Constant(1, 1, c) if coef == "const" else DiagX(1)
-        model = LevyDrivenSDEModel(driver=driver, x0=x0, a=a)
+        if coef == "libormodel":
+            # state-dependent SDE drift (terminal-measure drift of the Levy Libor model)
+            from rpylib.model.levydrivensde.levylibormodel import LevyLiborModel
+
+            model = LevyLiborModel(libor_rates=x0.copy(), tenors=[float(t_) for t_ in tenors],
+                                   sigma=SIGMA[:m].reshape(m, 1).copy(), driver=driver)
+            wd.probes["c16.state_dependent_sde_drift"] += 1
+        else:
+            model = LevyDrivenSDEModel(driver=driver, x0=x0, a=a)
         grid = CTMCUniformGrid(h=sc["h"], model=model.driver)
         product = Product(payoff_underlying=Spot(), payoff=PayoffOnTheFly(lambda u: float(np.sum(u))), maturity=T)
         method = SamplingMethod.BINARYSEARCHTREEADAPTED1D
@@ -240,9 +261,10 @@ def execute(wd, sc):
             if kind == "single":
                 mu = d[2]
                 dW, dL = np.diff(dp["diff"].reshape(-1)), np.diff(dp["jump"].reshape(-1))
-                ref = _euler(x0, coef, c, mu, times, dW, dL, tenors)
+                sdd = wd.c16.get("sde_drift") if coef == "libormodel" else None
+                ref = _euler(x0, coef, c, mu, times, dW, dL, tenors, sdd)
                 tot1 = s["drift"] + s["diff"] + s["jump"]
-                got = (np.asarray(x0).reshape(-1, 1) + tot1) if coef == "libor" else x0 + tot1.reshape(-1)
+                got = (np.asarray(x0).reshape(-1, 1) + tot1) if vec else x0 + tot1.reshape(-1)
                 wd.probes["c16.single_path_checked"] += 1
                 scale = 1.0 + np.max(np.abs(ref))
                 if got.shape != ref.shape or not np.allclose(got, ref, rtol=1e-10, atol=1e-12 * scale):
@@ -250,7 +272,7 @@ def execute(wd, sc):
                         {"got": np.ravel(got).tolist()[:6], "expected": np.ravel(ref).tolist()[:6], "mu": mu})
                 # closed forms
                 Y = mu * times + dp["diff"].reshape(-1) + dp["jump"].reshape(-1)
-                cf = None if coef == "libor" else (x0 + c * Y[-1] if coef == "const" else x0 * np.prod(1.0 + np.diff(Y)))
+                cf = None if vec else (x0 + c * Y[-1] if coef == "const" else x0 * np.prod(1.0 + np.diff(Y)))
                 if cf is not None and not np.isclose(got[-1], cf, rtol=1e-9, atol=1e-11 * scale):
                     add(f"C16.closed|terminal value differs from the closed form of the scheme|single|{cls}",
                         {"got": float(got[-1]), "closed_form": float(cf)})
@@ -266,19 +288,20 @@ def execute(wd, sc):
                         wd.probes["c16.coarse_drift_unknown"] += 1
                         continue
                     dW, dL = np.diff(dp["diff"][ci]), np.diff(dp["jump"][ci])
-                    ref = _euler(x0, coef, c, mu, times, dW, dL, tenors)
-                    got = (np.asarray(x0).reshape(-1, 1) + np.asarray(tot[ci])) if coef == "libor" else x0 + np.asarray(tot[ci]).reshape(-1)
+                    sdd = wd.c16.get("sde_drift") if coef == "libormodel" else None
+                    ref = _euler(x0, coef, c, mu, times, dW, dL, tenors, sdd)
+                    got = (np.asarray(x0).reshape(-1, 1) + np.asarray(tot[ci])) if vec else x0 + np.asarray(tot[ci]).reshape(-1)
                     scale = 1.0 + np.max(np.abs(ref))
                     if got.shape != ref.shape or not np.allclose(got, ref, rtol=1e-10, atol=1e-12 * scale):
                         mech = "other"
                         if name == "coarse":
-                            alt = _euler(x0, coef, c, mu_f, times, dW, dL, tenors)
+                            alt = _euler(x0, coef, c, mu_f, times, dW, dL, tenors, sdd)
                             if got.shape == alt.shape and np.allclose(got, alt, rtol=1e-10, atol=1e-12 * scale):
                                 mech = "coarse-component-uses-the-fine-level-drift"
                         add(f"C16.euler|{name} component of the coupled pair is not the Euler scheme of its driver path|{mech}|{cls}",
                             {"level": level, "got": np.ravel(got).tolist()[:6], "expected": np.ravel(ref).tolist()[:6], "mu": mu})
                     Y = mu * times + dp["diff"][ci] + dp["jump"][ci]
-                    cf = None if coef == "libor" else (x0 + c * Y[-1] if coef == "const" else x0 * np.prod(1.0 + np.diff(Y)))
+                    cf = None if vec else (x0 + c * Y[-1] if coef == "const" else x0 * np.prod(1.0 + np.diff(Y)))
                     if cf is not None and not np.isclose(got[-1], cf, rtol=1e-9, atol=1e-11 * scale):
                         add(f"C16.closed|terminal value differs from the closed form of the scheme|{name}|{cls}",
                             {"level": level, "got": float(got[-1]), "closed_form": float(cf)})
